@@ -56,7 +56,7 @@ def unique_rule(ctx, p, K):
     U, Wt, L = ret
     sw = S.stores_to(Wt.name)
     su = S.stores_to(U.name)
-    if len(sw) != 2 or len(su) != 1 or any(len(s.loops) != 3 for s in sw + su):
+    if len(sw) not in (1, 2) or len(su) != 1 or any(len(s.loops) != 3 for s in sw + su):
         ctx.ob(rule, f.key, False, where=f, node=f.node, construct=f"{len(sw)} weight stores, {len(su)} index stores", message="expected the repeat / first-occurrence pair of weight accumulations and one index store in the (data pixel, sub pixel, slot) nest")
         return
     lp = sw[0].loops
@@ -83,12 +83,20 @@ def unique_rule(ctx, p, K):
     seen = norm_cond(CMP(chk, ">", Poly.const(Fraction(-1, 2))))
     rep = [s for s in sw if len(real_guards(s.guards)) == 1 and norm_cond(real_guards(s.guards)[0]) == seen]
     new = [s for s in sw if s not in rep]
+    merged = None
+    if len(sw) == 1 and not real_guards(sw[0].guards):
+        # merged spelling: the first-occurrence branch records the new slot in pix_check[pix] and ONE accumulation after the branch adds at the remembered slot
+        # (which on a first occurrence is the slot just recorded).  Equivalent exactly when the slot is remembered before the accumulation reads it.
+        rem = [s for s in S.stores_to("pix_check") if len(s.loops) == 3]
+        if len(rem) == 1 and rem[0].node.lineno < sw[0].node.lineno and len(real_guards(rem[0].guards)) == 1 and norm_cond(real_guards(rem[0].guards)[0].negate()) == seen:
+            merged = rem[0]
+            rep, new = [sw[0]], [rem[0]]
     ok = len(rep) == 1 and len(new) == 1 and all(s.op == "+=" and value_poly(s.value) == term for s in sw)
     ctx.ob(rule, f.key + ":term", ok, where=f, node=sw[0].node, construct="; ".join(f"{s.op} {short(value_poly(s.value), 90)}" for s in sw),
            message="a repeat of a source pixel must ADD sub_fraction * weight to its existing slot and a first occurrence must add the same term to a new slot (sub_fraction = 1 / sub_size[ip]^2)")
     if ok and cname:
         r, nw = rep[0], new[0]
-        okslots = r.idx in ((ip, Poly.fn("fdiv", chk, ONE)), (ip, Poly.fn("int", chk)), (ip, chk)) and nw.idx == (ip, slot_new) and su[0].idx == (ip, slot_new) and value_poly(su[0].value) == pix \
+        okslots = r.idx in ((ip, Poly.fn("fdiv", chk, ONE)), (ip, Poly.fn("int", chk)), (ip, chk)) and (merged is not None or nw.idx == (ip, slot_new)) and su[0].idx == (ip, slot_new) and value_poly(su[0].value) == pix \
             and {c_.key() for c_ in real_guards(su[0].guards)} == {c_.key() for c_ in real_guards(nw.guards)}
         ctx.ob(rule, f.key + ":slots", okslots, where=f, node=nw.node, construct=f"repeat -> {list(map(repr, r.idx))}; new -> {list(map(repr, nw.idx))}; index store {list(map(repr, su[0].idx))}",
                message="a repeat is added at the slot remembered for that source pixel; a new source pixel takes the next free slot, where its index is recorded")
@@ -401,7 +409,7 @@ def neighbors_rule(ctx, p, K):
     kws = [wire.kwtext(c) for c in calls]
     ok = sorted(norm_text(c.func) for c in calls) == sorted(classes) and all(k == {"neighbors": "neighbors", "neighbors_sizes": "neighbors_sizes", "shape_native": "shape_native"} for k in kws)
     init = {norm_text(n.targets[0]): norm_text(n.value).replace(" ", "") for n in f.node.body if isinstance(n, ast.Assign) and isinstance(n.targets[0], ast.Name)}
-    ok = ok and init.get("neighbors") in ("-1*np.ones(shape=(pixels,4))", "np.ones(shape=(pixels,4))*-1", "-np.ones(shape=(pixels,4))") and init.get("neighbors_sizes") == "np.zeros(pixels)" \
+    ok = ok and init.get("neighbors") in ("-1*np.ones((pixels,4))", "np.ones((pixels,4))*-1", "-np.ones((pixels,4))", "np.full((pixels,4),-1)", "np.full((pixels,4),-1.0)") and init.get("neighbors_sizes") == "np.zeros(pixels)" \
         and init.get("pixels") in ("int(shape_native[0]*shape_native[1])", "shape_native[0]*shape_native[1]")
     rets = wire.returns_of(f)
     ok = ok and len(rets) == 1 and norm_text(rets[0].value) in ("(neighbors, neighbors_sizes)", "neighbors, neighbors_sizes")
@@ -415,11 +423,15 @@ def neighbors_rule(ctx, p, K):
     d = p.func("autoarray.structures.mesh.delaunay_2d:Mesh2DDelaunay.neighbors")
     txt = {norm_text(n.targets[0]): norm_text(n.value) for n in d.body_nodes() if isinstance(n, ast.Assign)}
     loops = [n for n in wire.main_line(d) if isinstance(n, ast.For)]
-    ok = txt.get("(indptr, indices)") == "self.delaunay.vertex_neighbor_vertices" and expr_poly_eq(d, "sizes", "indptr[1:] - indptr[:-1]") and len(loops) == 1 and norm_text(loops[0].iter) in ("range(self.parameters)", "range(len(sizes))")
+    from ..forms import index_form, src_poly as _P
+    sizes_ok = expr_poly_eq(d, "sizes", "indptr[1:] - indptr[:-1]") or txt.get("sizes") in ("np.diff(indptr)", "numpy.diff(indptr)")
+    ok = txt.get("(indptr, indices)") == "self.delaunay.vertex_neighbor_vertices" and sizes_ok and len(loops) == 1 and norm_text(loops[0].iter) in ("range(self.parameters)", "range(len(sizes))", "range(sizes.shape[0])")
     if ok:
         k = norm_text(loops[0].target)
-        body = [norm_text(b).replace(" ", "") for b in loops[0].body]
-        ok = body in ([f"neighbors[{k}][0:sizes[{k}]]=indices[indptr[{k}]:indptr[{k}+1]]"], [f"neighbors[{k},0:sizes[{k}]]=indices[indptr[{k}]:indptr[{k}+1]]"], [f"neighbors[{k}][0:sizes[{k}]]=indices[indptr[{k}]:indptr[1+{k}]]"])
+        b = loops[0].body
+        ok = len(b) == 1 and isinstance(b[0], ast.Assign) and len(b[0].targets) == 1 \
+            and index_form(b[0].targets[0]) == ("neighbors", (("at", _P(k)), ("slice", ZERO, _P(f"sizes[{k}]")))) \
+            and index_form(b[0].value) == ("indices", (("slice", _P(f"indptr[{k}]"), _P(f"indptr[{k} + 1]")),))
     ctx.ob(rule, d.key, ok, where=d, node=d.node, construct=str({k_: v_ for k_, v_ in txt.items() if k_ in ("(indptr, indices)", "sizes")}),
            message="Delaunay neighbours must be scipy's vertex adjacency: row k = indices[indptr[k] : indptr[k + 1]], size k = indptr[k + 1] - indptr[k]")
 
